@@ -146,6 +146,21 @@ func Gen(caseID, tier string) (json.RawMessage, error) {
 			t.Ops = append(t.Ops, o)
 		}
 		tp.Tasks = append(tp.Tasks, t)
+	case 8: // flood: many distinct authenticators of one client between an authenticator and its replay
+		if r.Chance(1, 3) {
+			tp.Shape = "flood"
+			cl, sv := r.Pick(clients...), r.Pick(services...)
+			t := TaskT{ID: 1, Sched: simrt.Sched{Seed: r.U64(), Mode: "min"}}
+			t.Ops = append(t.Ops, Op{Op: "present", Client: cl, CtUs: 0, Svc: sv, ThinkNs: int64(r.Range(0, 300))})
+			n := r.Range(60, 110)
+			for k := 1; k <= n; k++ {
+				t.Ops = append(t.Ops, Op{Op: "present", Client: cl, CtUs: int64(k) * 7, Svc: sv, ThinkNs: int64(r.Range(0, 300))})
+			}
+			t.Ops = append(t.Ops, Op{Op: "present", Client: cl, CtUs: 0, Svc: sv, ThinkNs: int64(r.Range(0, 300))})
+			tp.Tasks = append(tp.Tasks, t)
+			break
+		}
+		fallthrough
 	case 7: // clean-up racing with the return of a client whose earlier entries have all aged out
 		tp.Shape = "cleanup-race"
 		cl, sv := r.Pick(clients...), r.Pick(services...)
